@@ -17,7 +17,7 @@ import (
 	"github.com/go-task/task/v3/verifh/p16"
 )
 
-const rule = "tables: seeded random name tables of 3-8 tasks over the alphabet {a b : . * - ( ) [ + ? ^ $ | \\ { space} (names YAML double-quoted, 0-3 '*' per name, half of the names derived from an existing one so that patterns overlap; 0-2 aliases per task colliding with names / pattern instances / each other; 40% of the tables with one included file under a namespace). requests: every merged name, every alias, 2 instantiations per pattern (1 in 4 patterns also with a '{{' filling), what a regexp reading of a name would accept, near misses at edit distance 1 and 3, random strings. One CLI run per (table, request); the task's only command prints its origin marker and base64 of each .MATCH item. oracle: literal model exact > first literally matching wildcard in Taskfile order (root file first) > unique alias > 203 (several tasks carry the alias) > 200 (nothing may run; a suggestion is demanded only if exactly one name/alias is at Levenshtein distance 1 and all others at OSA distance > 2 and it is not a pattern); on a wildcard match the MATCH items must be as many as the '*'s and rebuild the request when substituted; Go panic / signal = violation. A case is one (table, request); non-trivial = the model had >= 2 candidates (exact, literally matching patterns, alias holders) or the request or the chosen name contains a regex metacharacter or an error code is expected; distinct by hash(project files, request). Exit codes 100-110 (setup rejected the table) are counted and not judged."
+const rule = "tables: seeded random name tables of 3-8 tasks over the alphabet {a b : . * - ( ) [ + ? ^ $ | \\ { space} (names YAML double-quoted, 0-3 '*' per name, half of the names derived from an existing one so that patterns overlap; 0-2 aliases per task colliding with names / pattern instances / each other; 40% of the tables with one included file under a namespace). requests: every merged name, every alias, 2 instantiations per pattern (1 in 4 patterns also with a '{{' filling), what a regexp reading of a name would accept, near misses at edit distance 1 and 3, random strings; then repeated requests within one invocation: per table up to 4 requests that held alone are made twice on the command line and twice from a wrapper task (two task: commands, a dep followed by a command, a for loop), and r1 r2 r1 for two instances of one pattern (command line and wrapper) - every call must print the probe line the request prints alone. One CLI run per (table, request) or per repeated-request form; the task's only command prints its origin marker and base64 of each .MATCH item. oracle: literal model exact > first literally matching wildcard in Taskfile order (root file first) > unique alias > 203 (several tasks carry the alias) > 200 (nothing may run; a suggestion is demanded only if exactly one name/alias is at Levenshtein distance 1 and all others at OSA distance > 2 and it is not a pattern); on a wildcard match the MATCH items must be as many as the '*'s and rebuild the request when substituted; Go panic / signal = violation. A case is one (table, request); non-trivial = the model had >= 2 candidates (exact, literally matching patterns, alias holders) or the request or the chosen name contains a regex metacharacter or an error code is expected; distinct by hash(project files, request). Exit codes 100-110 (setup rejected the table) are counted and not judged."
 
 type obs struct {
 	Exit   int      `json:"exit"`
@@ -67,7 +67,7 @@ func Run(id string, start time.Time) int {
 		return 2
 	}
 	part := h.NewPartial()
-	nTables := h.Pick(300, 5000)
+	nTables := h.Pick(250, 4000)
 	h.Parallel(nTables, 16, func(ti int) {
 		rng := h.Rng(15, int64(ti))
 		tb := GenTable(rng)
@@ -85,6 +85,8 @@ func Run(id string, start time.Time) int {
 		}
 		ms := tb.Merged()
 		fileHash := h.Hash(files["Taskfile.yml"], files["inc.yml"])
+		singles := map[string]single{}
+		defer func() { multi(part, rng, tb, files, dir, bin, scratch, singles, reqs, ti, fileHash) }()
 		for ri, req := range reqs {
 			exp := Resolve(ms, req)
 			res := p16.Proc{Bin: bin, Dir: dir, Args: []string{req}, Timeout: 120 * time.Second, TmpDir: scratch}.Run()
@@ -149,15 +151,22 @@ func Run(id string, start time.Time) int {
 			switch exp.Kind {
 			case KExact, KWild, KAlias:
 				if len(ran) == 1 && ran[0] == exp.ID && res.Exit == 0 {
+					held := true
 					if exp.Kind == KWild {
 						part.Count("match_checked", 1)
 						part.Max("match_items", int64(len(match)))
 						got, ok := reconstruct(exp.Name, match)
+						if !ok || got != req {
+							held = false
+						}
 						if !ok {
 							part.Violation(matchSig("match-count", cause(ms, req, ran, match, res.Exit)), fmt.Sprintf("request %q ran %q with %d MATCH items %q, pattern has %d '*'", req, exp.Name, len(match), match, stars(exp.Name)), witness())
 						} else if got != req {
 							part.Violation(matchSig("match-reconstruct", cause(ms, req, ran, match, res.Exit)), fmt.Sprintf("request %q ran %q with MATCH %q which rebuilds %q", req, exp.Name, match, got), witness())
 						}
+					}
+					if held {
+						singles[req] = single{Line: strings.TrimSpace(res.Stdout), Exp: exp}
 					}
 					continue
 				}
